@@ -8,7 +8,8 @@ def run(ctx):
     ctx.rule = ("generated valid CIDs (all four formats, 1-6 fields over 14 declarations of all 8 types, 0-3 checks, random property rows) x (a) stacks of meaning-"
                 "preserving rewrites (comment rows, trailing cells, case of row markers / property names / format value, blanks around stripped cells) which must "
                 "stay accepted with identical fields, checks and format settings, (b) each of ~55 structural defects at every applicable row, which must be "
-                "rejected as interface error at that row; every CID also goes through the Lean model of Cid.read; distinct = distinct row list; non-trivial = every case")
+                "rejected as interface error at that row, (c) field rows with grammar-generated length declarations (single, ranges, open ends, lists, hex, negative, "
+                "malformed) whose verdict must be the model's; every CID also goes through the Lean model of Cid.read; distinct = distinct row list; non-trivial = every case")
     n = 60 if ctx.tier == "quick" else 600
     cases = []   # (kind, rows, expectation)
     for _ in range(n):
@@ -17,6 +18,8 @@ def run(ctx):
         for _ in range(3):
             drows, imap = cidlib.decorate(rnd, rows, info)
             cases.append(("decorated", drows, rows))
+        for new_rows, where in cidlib.length_variants(rnd, rows, info):
+            cases.append(("length", new_rows, where))
         for name, new_rows, where in cidlib.defects(rnd, rows, info):
             if name == "unknown-row-marker":
                 where = [k for k, r in enumerate(new_rows) if r and r[0] == "X"][0]
@@ -40,6 +43,10 @@ def run(ctx):
         if kind == "valid":
             if not impl.startswith("ok "):
                 ctx.violation("C09:valid-rejected:%s" % impl.split("@")[0], "structurally sound CID rejected: %s" % impl, case)
+        elif kind == "length":
+            # the verdict is the model's (C09_fixed_length_exact, C09_length_not_negative describe it); compared below
+            if not impl.startswith("ok ") and not impl.startswith("iface@%d" % expect):
+                ctx.violation("C09:length-%s" % impl.split("@")[0], "field row %d with another length declaration gives %s" % (expect, impl), case)
         elif kind == "decorated":
             base = cidlib.impl_canonical(expect)
             if impl != base:
